@@ -2,7 +2,7 @@
    Only statements; proofs are in Proofs/ResP*.v and Proofs/WorkerP*.v. *)
 From Coq Require Import ZArith Bool List.
 Import ListNotations.
-From Verif Require Import Model.Val Model.Res Model.Worker Proofs.ResP Proofs.ResP2 Proofs.WorkerP Proofs.WorkerP2 Proofs.WorkerP3 Proofs.WorkerP4 Proofs.WorkerPR Proofs.MonitorP.
+From Verif Require Import Model.Val Model.Res Model.Worker Proofs.ResP Proofs.ResP2 Proofs.WorkerP Proofs.WorkerP2 Proofs.WorkerP3 Proofs.WorkerP4 Proofs.WorkerPR Proofs.MonitorP Proofs.ResP3 Proofs.WorkerEx.
 Open Scope Z_scope.
 
 (* For every history of allocate / allocate_multiple / deallocate / get_allocated_resources on a
@@ -140,6 +140,38 @@ Theorem C04_pool_no_oversubscription : forall tbl P, PInv tbl P ->
 Proof. exact pool_no_oversubscription. Qed.
 Print Assumptions C04_pool_no_oversubscription.
 
+(* ---- copies ---- *)
+(* a shallow copy of a ledger whose vector has no two matching cells always succeeds and has the same
+   available cells, totals, allocated sums and getters as its original *)
+Theorem C04_copy_same_getters : forall R, Inv_ledger R -> Dict_ok R -> Nonneg R -> wf_vecb (r_total R) = true ->
+  exists R', r_copy R = Ok R' /\ r_avail R' = r_avail R /\ r_total R' = r_total R /\
+             (forall P, allocs_sum P (r_allocs R') = allocs_sum P (r_allocs R)) /\
+             forall r, r_available R' r = r_available R r /\ r_total_q R' r = r_total_q R r /\
+                       r_allocated_q R' r = r_allocated_q R r.
+Proof. exact copy_same_getters. Qed.
+Print Assumptions C04_copy_same_getters.
+(* for ANY vector, a copy that succeeds conserves over the original's totals *)
+Theorem C04_copy_conserves : forall R R', NoDup (map fst (r_total R)) -> r_copy R = Ok R' ->
+  r_total R' = r_total R /\ forall P, sumP P (r_avail R') + allocs_sum P (r_allocs R') = sumP P (r_total R).
+Proof. exact copy_conserves. Qed.
+Print Assumptions C04_copy_conserves.
+Theorem C04_worker_copy_shape : forall w w', w_copy w = Ok w' ->
+  w_id w' = w_id w /\ w_placed w' = w_placed w /\ w_avail_prof w' = w_avail_prof w /\ w_pend_prof w' = w_pend_prof w /\
+  w_batches w' = [] /\ r_copy (w_res w) = Ok (w_res w').
+Proof. exact w_copy_shape. Qed.
+Print Assumptions C04_worker_copy_shape.
+Theorem C04_worker_deepcopy_initial : forall id v ops, NoDup (map fst v) ->
+  let w := w_deepcopy (w_run ops (w_new id v)) in
+  w_res w = r_new v /\ w_placed w = [] /\ w_avail_prof w = [] /\ w_pend_prof w = [] /\ w_batches w = [].
+Proof. exact w_deepcopy_initial. Qed.
+Print Assumptions C04_worker_deepcopy_initial.
+(* operations on one object (other than a step, see C04_timer_aliasing_refuted) and copies leave every
+   other object of the world unchanged *)
+Theorem C04_world_independence : forall W c j a, cmd_is_step c = false -> cmd_target c <> Some j ->
+  nth_error (wo_objs W) j = Some a -> nth_error (wo_objs (fst (world_step W c))) j = Some a.
+Proof. exact world_independence. Qed.
+Print Assumptions C04_world_independence.
+
 (* ---- the monitors applied to the implementation's observations are the decidable forms of the statements ---- *)
 Theorem C04_monitor_ledger : forall tot av a, check_ledger tot av a = true <->
   (NoDup (map fst av) /\ map fst av = map fst tot /\ nonneg_vec av /\ recs_in av a /\
@@ -170,6 +202,21 @@ Theorem C04_monitor_pool : forall pp wp, check_pool_placed pp wp = true <->
   (forall w l t, In (w, l) wp -> In t l -> zfind t pp = Some w).
 Proof. exact check_pool_placed_iff. Qed.
 Print Assumptions C04_monitor_pool.
+
+(* ---- the hypotheses are satisfiable by non-trivial states (Proofs/WorkerEx.v) ---- *)
+Theorem C04_nonvacuous_worker : exists w, w_reach ex_tbl (w_new 0 ex_vec) w /\
+  w_placed w <> [] /\ w_batches w <> [] /\ w_pend_prof w <> [] /\ r_allocs (w_res w) <> [] /\
+  r_avail (w_res w) <> r_total (w_res w).
+Proof. exact ex_reach. Qed.
+Print Assumptions C04_nonvacuous_worker.
+Theorem C04_nonvacuous_pool : exists P, p_reach ex_tbl (p_new 0 [w_new 0 ex_vec; w_new 1 ex_vec]) P /\
+  List.length (p_placed P) = 2%nat /\ PInv ex_tbl (p_new 0 [w_new 0 ex_vec; w_new 1 ex_vec]).
+Proof. exact ex_pool_reach. Qed.
+Print Assumptions C04_nonvacuous_pool.
+Theorem C04_nonvacuous_copy : wf_vecb ex_vec = true /\
+  exists R', r_copy (w_res (w_run ex_ops (w_new 0 ex_vec))) = Ok R' /\ r_allocs R' <> [].
+Proof. exact ex_copy. Qed.
+Print Assumptions C04_nonvacuous_copy.
 
 (* ---- what is FALSE without the hypotheses above (same witnesses as corpus/C04, replayed on /repo) ---- *)
 Theorem C04_replace_resident_refuted :
